@@ -1,9 +1,19 @@
 #!/bin/sh
-# usage: ./seedrun.sh <patch> <check>...   — applies a seeded change to /repo, runs the checks (quick), reverts
+# usage: ./seedrun.sh <patch> <check>...
+# Runs the quick checks against a seeded change WITHOUT touching /repo: the patch is applied in a scratch worktree
+# and the changed files are passed to the builds as a go overlay (VERIF_OVERLAY).
 P="$1"; shift
-git -C /repo apply "$P" || { echo "patch does not apply"; exit 2; }
+W=/tmp/seedo/$$
+rm -rf "$W"; mkdir -p /tmp/seedo; git -C /repo worktree prune
+git -C /repo worktree add -q "$W" HEAD || exit 2
+( cd "$W" && git apply "$P" ) || { echo "patch does not apply"; git -C /repo worktree remove --force "$W"; exit 2; }
+python3 - "$W" > "$W.overlay.json" <<'PY'
+import json,subprocess,sys
+w=sys.argv[1]
+files=subprocess.check_output(['git','-C',w,'diff','--name-only']).decode().split()
+print(json.dumps({"Replace":{"/repo/"+f: w+"/"+f for f in files}}))
+PY
 for c in "$@"; do
-  ./check "$c" quick 2>&1 | grep -E "VIOLATION|violation detail|quick:|BUILD-FAILED|ENGINE-ERROR" | cut -c1-400
+  VERIF_OVERLAY="$W.overlay.json" ./check "$c" quick 2>&1 | grep -E "VIOLATION|violation detail|quick:|BUILD-FAILED|ENGINE-ERROR" | cut -c1-400
 done
-git -C /repo checkout -- . 
-git -C /repo status --short | head -3
+git -C /repo worktree remove --force "$W"; rm -f "$W.overlay.json"
